@@ -15,6 +15,11 @@ std::string first_word(const std::string& line);
 void clock_jump(RunCtx& ctx, uint64_t target);
 uint32_t clock_now();
 
+/** texts for per-block parses, among them ones that abandon productions which keep process-global parser state; and
+ *  the grammar entry point each is written for (index-aligned) */
+const std::vector<std::string>& block_texts();
+const std::vector<int>& block_parts();
+
 Model small_or_drawn_model(RunCtx& ctx, Rng& rng, GenCfg& cfg, bool allow_dynamic = true);
 
 }  // namespace sim
